@@ -156,7 +156,7 @@ func (s *Session) report(id string, cfg *CheckConfig, dev bool, t0 time.Time, lo
 		os.MkdirAll(vdir, 0o755)
 		u := failedUnit[i]
 		var rr *ReplayResult
-		if o.Result.Status == "sat" && u.Con != nil && u.Con.Replay != "" {
+		if o.Script != "" && u.Con != nil && u.Con.Replay != "" {
 			rr = s.tryReplay(u, o)
 		}
 		vf := filepath.Join(vdir, sanitize(o.Name)+".json")
